@@ -171,6 +171,8 @@ func (g *Grammar) CarrierUserGo(bounds bool) string {
 	var b strings.Builder
 	b.WriteString("package carrier\n\n")
 	b.WriteString("type Token struct {\n\tType int\n\tIdx  int\n}\n\n")
+	b.WriteString("func (t Token) Discard() bool { return false }\n\n")
+	b.WriteString("// V is the result type of every rule; it has Discard so that rules can be elements of x*!.\ntype V struct{}\n\nfunc (V) Discard() bool { return false }\n\n")
 	b.WriteString("type parser struct {\n\tlox\n}\n\n")
 	for _, r := range g.Rules {
 		ar := map[int]bool{}
@@ -191,7 +193,7 @@ func (g *Grammar) CarrierUserGo(bounds bool) string {
 			if k > 0 {
 				params = strings.Join(ps, ", ") + " any"
 			}
-			fmt.Fprintf(&b, "func (p *parser) on_%s__%d(%s) any { return nil }\n", r.Name, k, params)
+			fmt.Fprintf(&b, "func (p *parser) on_%s__%d(%s) V { return V{} }\n", r.Name, k, params)
 		}
 	}
 	if bounds {
